@@ -23,6 +23,8 @@ Record TInv (x : thr) (iss del : list N) : Prop := {
 
 Definition Inv (s : st) : Prop := forall t, TInv (th s t) (issued s t) (delivered s t).
 
+Lemma TInv_fresh v : TInv (set_thr_uqs thr0 v) [] [].
+Proof. constructor; cbn; auto. apply SInv_init. Qed.
 Lemma TInv_thr0 : TInv thr0 [] [].
 Proof. constructor; cbn; auto. apply SInv_init. Qed.
 
@@ -42,7 +44,7 @@ Lemma empty_keeps x iss del : TInv x iss del -> TInv (fst (q_empty x)) iss del.
 Proof.
   intros I. unfold q_empty. pose proof (empty_inv C (q x) (t_seq _ _ _ I)) as (I1 & _ & Hrp & Hrc & _ & _ & Hwp & _).
   destruct I as [Hc Hs Hr Ha Hp Hx]. destruct (empty (q x)) as [q1 e] eqn:E. cbn [fst snd] in *.
-  constructor; cbn [set_thr_q q qev tbuf texists]; auto.
+  constructor; cbn [sh set_thr_uqs set_thr_q q qev tbuf texists]; auto.
   - congruence.
   - unfold empty in E. destruct (wcache (q x) =? rpos (q x)); inversion E; subst; cbn; auto.
 Qed.
@@ -50,7 +52,7 @@ Qed.
 Lemma q_empty_true_nil x iss del : TInv x iss del -> snd (q_empty x) = true -> qev (fst (q_empty x)) = [].
 Proof.
   intros I. unfold q_empty. pose proof (empty_true_nil x iss del I).
-  destruct (empty (q x)) as [q1 e]. cbn [fst snd set_thr_q qev] in *. auto.
+  destruct (empty (q x)) as [q1 e]. cbn [fst snd sh set_thr_uqs set_thr_q qev] in *. auto.
 Qed.
 
 Lemma q_empty_fields x : let x1 := fst (q_empty x) in
@@ -76,7 +78,7 @@ Proof.
   pose proof (step_inv C 0 {| on_batch := false; on_drain := false |} (q x) (W (esz e) true) Hs) as HS.
   cbn [sstep] in HS. rewrite E in HS. cbn [fst] in HS.
   pose proof (pw_inv C (q x) (esz e) Hs) as (_ & _ & Hw & Hrc). rewrite E in Hw, Hrc. cbn [fst] in Hw, Hrc.
-  constructor; cbn [set_thr_pend set_thr_q q qev tbuf texists].
+  constructor; cbn [set_thr_pend sh set_thr_uqs set_thr_q q qev tbuf texists].
   - rewrite Hc, !map_app. cbn. now rewrite <- !app_assoc.
   - exact HS.
   - cbn [commit_write finish_write recs]. rewrite Hrc, Hr, map_app. reflexivity.
@@ -97,12 +99,14 @@ Proof.
   intros [Hc Hs Hr Ha Hp Hx] E.
   pose proof (pw_inv C (q x) n Hs) as (I1 & _ & Hw & Hrc). rewrite E in I1, Hw, Hrc. cbn [fst] in *.
   pose proof (pw_aw_wpos (q x) n) as [A1 A2]. rewrite E in A1, A2. cbn [fst] in A1, A2.
-  constructor; cbn [set_thr_q q qev tbuf texists]; auto; try congruence.
+  constructor; cbn [sh set_thr_uqs set_thr_q q qev tbuf texists]; auto; try congruence.
 Qed.
 
 Definition pos_op (o : fop) : Prop := match o with FClock _ e => 0 < esz e | _ => True end.
 
 Lemma TInv_pend x iss del p c : TInv x iss del -> TInv (set_thr_pend x p c) iss del.
+Proof. intros [? ? ? ? ? ?]. constructor; auto. Qed.
+Lemma TInv_sh x iss del f : TInv x iss del -> TInv (sh f x) iss del.
 Proof. intros [? ? ? ? ? ?]. constructor; auto. Qed.
 Lemma TInv_failc x iss del n : TInv x iss del -> TInv (set_thr_failc x n) iss del.
 Proof. intros [? ? ? ? ? ?]. constructor; auto. Qed.
@@ -135,7 +139,7 @@ Proof.
     + (* granted *)
       pose proof (pw_grant_inv _ _ _ e q1 off (I t) Hpos E) as G.
       destruct (ekind e) eqn:Ek; cbn [set_lg th issued delivered set_th]; (split;
-        [intro u; cbn [issued delivered th set_th set_lg]; upd_cases u t; [try (apply TInv_wflush); exact G|apply I]
+        [intro u; cbn [issued delivered th set_th set_lg]; upd_cases u t; [apply TInv_sh; try (apply TInv_wflush); exact G|apply I]
         |intros u e'; cbn [th set_th set_lg]; upd_cases u t; [cbn; discriminate|apply P]]).
     + (* denied *)
       pose proof (pw_deny_inv _ _ _ _ _ _ (I t) E) as D.
@@ -220,40 +224,40 @@ Proof.
 Qed.
 
 (* one step of the decode loop: the oldest queued statement moves to the back of the buffer *)
-Lemma read_loop_inv fuel tn : forall x total notes iss del,
+Lemma read_loop_inv fuel lim tn : forall x total notes iss del,
   TInv x iss del ->
-  TInv (fst (fst (fst (read_loop K fuel tn x total notes)))) iss del /\
-  pend (fst (fst (fst (read_loop K fuel tn x total notes)))) = pend x.
+  TInv (fst (fst (fst (read_loop K fuel lim tn x total notes)))) iss del /\
+  pend (fst (fst (fst (read_loop K fuel lim tn x total notes)))) = pend x.
 Proof.
   induction fuel as [|f IH]; intros x total notes iss del T; cbn [read_loop]; [split; [exact T|reflexivity]|].
   destruct T as [Hc Hs Hr Ha Hp Hx].
   pose proof (pr_cases (q x) Hs) as (S1 & R1 & A1 & W1 & F1).
   destruct (prepare_read ideal C (q x)) as [q1 r]. cbn [fst snd] in *.
-  assert (Tq1 : forall c, TInv (set_thr_tbuf (set_thr_q x q1 (qev x)) (tbuf x) c) iss del).
-  { intro c. constructor; cbn; auto; try congruence; try (intros; discriminate). }
-  assert (Tq1' : TInv (set_thr_q x q1 (qev x)) iss del).
-  { constructor; cbn; auto; congruence. }
-  destruct r as [off|]; [|cbn [fst]; split; [exact Tq1'|reflexivity]].
-  destruct (qev x) as [|e rest] eqn:Eq; [cbn [fst]; split; [exact Tq1'|reflexivity]|].
+  assert (Tq1 : forall c g, TInv (sh g (set_thr_tbuf (set_thr_q x q1 (qev x)) (tbuf x) c)) iss del).
+  { intros c g. apply TInv_sh. constructor; cbn; auto; try congruence; try (intros; discriminate). }
+  assert (Tq1' : forall g, TInv (sh g (set_thr_q x q1 (qev x))) iss del).
+  { intro g. apply TInv_sh. constructor; cbn; auto; congruence. }
+  destruct r as [off|]; [|cbn [fst]; split; [apply Tq1'|reflexivity]].
+  destruct (qev x) as [|e rest] eqn:Eq; [cbn [fst]; split; [apply Tq1'|reflexivity]|].
   destruct (negb (c_grace K =? 0) && (tn <? ets e)); [cbn [fst]; split; [apply Tq1|reflexivity]|].
   assert (Hrec : recs (q x) = esz e :: map esz rest) by (rewrite Hr; reflexivity).
   specialize (F1 ltac:(discriminate) _ _ Hrec).
-  assert (Tmove : forall c, TInv (set_thr_tbuf (set_thr_q x (finish_read ideal q1 (esz e)) rest) (tbuf x ++ [e]) c) iss del).
-  { intro c. constructor; cbn [set_thr_tbuf set_thr_q q qev tbuf texists]; auto.
+  assert (Tmove : forall c g, TInv (sh g (set_thr_tbuf (set_thr_q x (finish_read ideal q1 (esz e)) rest) (tbuf x ++ [e]) c)) iss del).
+  { intros c g. apply TInv_sh. constructor; cbn [set_thr_tbuf set_thr_q q qev tbuf texists]; auto.
     - rewrite Hc, map_app. cbn. now rewrite <- app_assoc.
     - cbn [finish_read recs]. rewrite R1, Hrec. reflexivity.
     - cbn [finish_read aw wpos]. congruence.
     - now inversion Hp.
     - intros; discriminate. }
-  assert (Hgo : forall c,
-    let x1 := set_thr_tbuf (set_thr_q x (finish_read ideal q1 (esz e)) rest) (tbuf x ++ [e]) c in
-    let r := if (total + esz e <? c_cap K) && (N.of_nat (length (tbuf x1)) <? c_hard K)
-             then read_loop K f tn x1 (total + esz e) (notes ++ fmt_notes e)
+  assert (Hgo : forall c g,
+    let x1 := sh g (set_thr_tbuf (set_thr_q x (finish_read ideal q1 (esz e)) rest) (tbuf x ++ [e]) c) in
+    let r := if (total + esz e <? lim) && (N.of_nat (length (tbuf x1)) <? c_hard K)
+             then read_loop K f lim tn x1 (total + esz e) (notes ++ fmt_notes e)
              else (x1, total + esz e, notes ++ fmt_notes e, false) in
     TInv (fst (fst (fst r))) iss del /\ pend (fst (fst (fst r))) = pend x).
-  { intros c x1 r. unfold r.
-    destruct ((total + esz e <? c_cap K) && (N.of_nat (length (tbuf x1)) <? c_hard K)).
-    - destruct (IH x1 (total + esz e) (notes ++ fmt_notes e) iss del (Tmove c)) as [A B]. split; [exact A|exact B].
+  { intros c g x1 r. unfold r.
+    destruct ((total + esz e <? lim) && (N.of_nat (length (tbuf x1)) <? c_hard K)).
+    - destruct (IH x1 (total + esz e) (notes ++ fmt_notes e) iss del (Tmove c g)) as [A B]. split; [exact A|exact B].
     - cbn [fst]. split; [apply Tmove|reflexivity]. }
   destruct (efmt e); destruct (ekind e); destruct (c_catch_all K);
     try (cbn [fst]; split; [apply Tq1|reflexivity]); apply Hgo.
@@ -263,12 +267,12 @@ Lemma read_queue_inv tn x iss del : TInv x iss del ->
   TInv (fst (fst (read_queue K tn x))) iss del /\ pend (fst (fst (read_queue K tn x))) = pend x.
 Proof.
   intro T. unfold read_queue.
-  pose proof (read_loop_inv (S (length (qev x))) tn x 0 [] iss del T) as H.
-  destruct (read_loop K (S (length (qev x))) tn x 0 []) as [[[x1 total] notes] esc]. cbn [fst] in H. destruct H as [T1 P1].
+  pose proof (read_loop_inv (S (length (qev x))) (read_limit K x) tn x 0 [] iss del T) as H.
+  destruct (read_loop K (S (length (qev x))) (read_limit K x) tn x 0 []) as [[[x1 total] notes] esc]. cbn [fst] in H. destruct H as [T1 P1].
   destruct (total =? 0); cbn [fst]; [split; assumption|]. split; [|exact P1].
   destruct T1 as [Hc Hs Hr Ha Hp Hx].
   pose proof (step_inv C (c_batch K) (c_pub K) (q x1) CR Hs) as HS. cbn [sstep fst] in HS.
-  constructor; cbn [set_thr_q q qev tbuf texists]; auto.
+  apply TInv_sh. constructor; cbn [set_thr_q q qev tbuf texists]; auto.
   - unfold commit_read. destruct (should_publish ideal (c_batch K) (c_pub K) (q x1)); cbn; auto.
   - unfold commit_read. destruct (should_publish ideal (c_batch K) (c_pub K) (q x1)); cbn; auto.
 Qed.
@@ -475,13 +479,13 @@ Qed.
 
 (* the conservation statement itself, for every op list from the initial state *)
 Theorem be_conservation (s0 : st) ops :
-  (forall t, th s0 t = thr0 /\ issued s0 t = [] /\ delivered s0 t = []) -> pos_ops ops ->
+  (forall t, fresh_thr (th s0 t) /\ issued s0 t = [] /\ delivered s0 t = []) -> pos_ops ops ->
   let s := run K s0 ops in
   forall t, issued s t = delivered s t ++ map eid (tbuf (th s t)) ++ map eid (qev (th s t)).
 Proof.
   intros H0 Hp s t.
   assert (G0 : Good s0).
-  { split; [intro u; destruct (H0 u) as (-> & -> & ->); apply TInv_thr0|intros u e; destruct (H0 u) as (-> & _); discriminate]. }
+  { split; [intro u; destruct (H0 u) as ((v & ->) & -> & ->); apply TInv_fresh|intros u e; destruct (H0 u) as ((v & ->) & _); discriminate]. }
   apply (t_cons _ _ _ (proj1 (run_good ops Hp s0 G0) t)).
 Qed.
 End Inv.
